@@ -398,6 +398,11 @@ class Check:
         self.workdir = os.path.join(BUILD, "run-%s-%d" % (prop, os.getpid()))
         shutil.rmtree(self.workdir, ignore_errors=True)
         os.makedirs(self.workdir, exist_ok=True)
+        for old in glob.glob(os.path.join(VERIF, "replays", "%s-*.json" % prop)):
+            try:
+                os.unlink(old)
+            except OSError:
+                pass
 
     # anchors: source files whose sanitizer reports / assertions count as violations of this property
     def absorb(self, jobs, phase, anchors_re=None, leak_is_violation=True):
